@@ -48,6 +48,18 @@ class ScriptedReader:
     read = _take
     recv = _take
 
+    def recv_into(self, buffer, nbytes=0, flags=0):
+        mv = memoryview(buffer)
+        data = self._take(min(nbytes or len(mv), len(mv)))
+        mv[: len(data)] = data
+        return len(data)
+
+    def readinto(self, buffer):
+        mv = memoryview(buffer)
+        data = self._take(len(mv))
+        mv[: len(data)] = data
+        return len(data)
+
     # socket-ish / file-ish extras
     def setsockopt(self, *a):
         return None
@@ -72,6 +84,11 @@ class Sink:
     def sendall(self, data):
         self.calls += 1
         self.buf += data
+
+    def send(self, data):
+        self.calls += 1
+        self.buf += data
+        return len(data)
 
     def flush(self):
         return None
@@ -287,6 +304,18 @@ def run(tier: str, only=None) -> int:
                 else:
                     bounds = {"ps": 2, "free": 0} if tier == "quick" else {"ps": 2, "free": 1}
                 harness.run_exploration(rep, PID, name, ChanProgC08, P, bounds, max_execs=cap)
+    # a large data frame against header-only frames of other channels
+    for tr in ("socket", "popen", "via"):
+        for d, others in (("up", ("close", "status", "drop")), ("down", ("end",))):
+            for other in others:
+                name = f"mix/{tr}:{d}:{other}"
+                if only and only not in name:
+                    continue
+                if tier == "quick" and tr != "socket" and other not in ("close", "end"):
+                    continue
+                P = {"transport": tr, "size": 70000, "dir": d, "other": other}
+                bounds = ({"ps": 1, "env": 1, "free": 1} if tr == "socket" else {"ps": 1, "free": 0}) if tier == "quick" else {"ps": 2, "env": 1, "free": 1}
+                harness.run_exploration(rep, PID, name, MixScn, P, bounds, max_execs=cap)
     rep.assumptions += ["BufferedWriter.write of a pipe is atomic per call (popen path); socket sendall is a loop of partial sends whose split points are environment choices", "virtual primitives as in DESIGN 7"]
     return rep.finish()
 
@@ -302,7 +331,97 @@ class ChanProgC08:
         return None, out
 
 
-SCENARIOS = {"senders": ChanProgC08}
+class MixScn:
+    """a large data frame racing with header-only frames (close / status / exec end) of other channels.
+    P: transport, size, dir ("up" | "down"), other ("close" | "status" | "drop")"""
+
+    @staticmethod
+    def scenario(w, P):
+        from .common import Session
+
+        S = Session(w, P["transport"], "thread")
+        w.opts["sendall_splits"] = True
+        size = P["size"]
+
+        def main():
+            gw = S.open()
+            em = S.proc.execmodel
+            if P["dir"] == "up":
+                big = gw.remote_exec("W = channel.gateway.execmodel.world\nx = channel.receive()\nW.observe('wgot', len(x), x[:1], x[-1:])")
+                other = gw.remote_exec("try:\n    channel.receive()\nexcept EOFError:\n    channel.gateway.execmodel.world.observe('other-eof')")
+                em.sleep(0.5)
+                w.exploring = True
+
+                def send_big():
+                    try:
+                        big.send(b"a" + b"x" * (size - 2) + b"z")
+                    except BaseException as e:  # noqa: BLE001
+                        w.observe("send-exc", type(e).__name__, str(e)[:80])
+
+                def do_other():
+                    try:
+                        if P["other"] == "close":
+                            other.close()
+                        elif P["other"] == "status":
+                            w.observe("status", gw.remote_status().numexecuting >= 1)
+                    except BaseException as e:  # noqa: BLE001
+                        w.observe("other-exc", type(e).__name__, str(e)[:80])
+
+                S.user(send_big, "big")
+                S.user(do_other, "other")
+                if P["other"] == "drop":
+                    del other
+                S.join_users()
+                try:
+                    big.waitclose(20)
+                except BaseException as e:  # noqa: BLE001
+                    w.observe("big-exc", type(e).__name__, str(e)[:80])
+            else:
+                # worker side: the primary thread sends the large item while a second body just ends
+                big = gw.remote_exec("channel.receive()\nchannel.send(b'a' + b'x' * %d + b'z')" % (size - 2))
+                other = gw.remote_exec("channel.receive()")
+                em.sleep(0.5)
+                w.exploring = True
+                big.send("go")
+                other.send("go")
+                try:
+                    x = big.receive(timeout=20)
+                    w.observe("wgot", len(x), x[:1], x[-1:])
+                    other.waitclose(20)
+                    big.waitclose(20)
+                except BaseException as e:  # noqa: BLE001
+                    w.observe("big-exc", type(e).__name__, str(e)[:80])
+            w.exploring = False
+            em.sleep(0.5)
+            S.ctx["alive"] = gw.hasreceiver()
+            try:
+                c = gw.remote_exec("channel.send(7)")
+                S.ctx["fresh"] = c.receive(timeout=20)
+            except BaseException as e:  # noqa: BLE001
+                S.ctx["fresh"] = type(e).__name__
+            S.ctx["done"] = True
+            S.group.terminate(timeout=2.0)
+
+        S.main(main)
+        return S
+
+    @staticmethod
+    def oracle(w, S, P):
+        obs = w.obs
+        out = tuple(e[0] for e in obs)
+        if not S.ctx.get("done"):
+            return ("c08:mix-hang", f"P={P} obs={obs} blocked={w.blocked_at_end} stderr={w.stderr.getvalue()[-500:]}"), out
+        for e in obs:
+            if e[0].endswith("-exc"):
+                return ("c08:mix-exception", f"P={P}: {e} obs={obs} stderr={w.stderr.getvalue()[-500:]}"), out
+        if ("wgot", P["size"], b"a", b"z") not in obs:
+            return ("c08:mix-corrupt", f"P={P}: the large item did not arrive intact: {obs}"), out
+        if S.ctx.get("fresh") != 7 or not S.ctx.get("alive"):
+            return ("c08:mix-gateway-down", f"P={P}: gateway alive={S.ctx.get('alive')} fresh={S.ctx.get('fresh')} stderr={w.stderr.getvalue()[-500:]}"), out
+        return None, out
+
+
+SCENARIOS = {"senders": ChanProgC08, "mix": MixScn}
 
 
 def replay(path: str) -> int:
